@@ -65,8 +65,10 @@ type pconn struct {
 	stalled    int32 // the proxy stops reading in both directions: TCP back-pressure builds up at the senders
 	dead       int32
 	frames     map[string]int
-	armDir     string // StallAfterBytes: direction watched ...
-	armLeft    int64  // ... payload bytes still to pass before the stall (0 = not armed)
+	c2sOpen    bool     // (under wmu) the client is in the middle of a fragmented message
+	injectQ    [][]byte // (under wmu) frames to inject towards the server at the next message boundary
+	armDir     string   // StallAfterBytes: direction watched ...
+	armLeft    int64    // ... payload bytes still to pass before the stall (0 = not armed)
 	armCh      chan struct{}
 }
 
@@ -345,6 +347,38 @@ func (p *Proxy) InjectEmptyFrame() {
 	}
 }
 
+// InjectClientFrame sends a complete (masked, unfragmented) text message towards the server on every live connection,
+// between two of the real client's messages: what a peer other than the library's own client might send.
+func (p *Proxy) InjectClientFrame(text string) {
+	b := []byte{0x81}
+	n := len(text)
+	switch {
+	case n < 126:
+		b = append(b, 0x80|byte(n))
+	case n < 65536:
+		b = append(b, 0x80|126, byte(n>>8), byte(n))
+	default:
+		return
+	}
+	b = append(b, 0, 0, 0, 0) // mask key 0: payload bytes unchanged
+	b = append(b, text...)
+	p.mu.Lock()
+	cs := append([]*pconn{}, p.conns...)
+	p.mu.Unlock()
+	for _, pc := range cs {
+		if atomic.LoadInt32(&pc.dead) != 0 || atomic.LoadInt32(&pc.blackholed) != 0 {
+			continue
+		}
+		pc.wmu.Lock()
+		if pc.c2sOpen {
+			pc.injectQ = append(pc.injectQ, b)
+		} else {
+			pc.srv.Write(b)
+		}
+		pc.wmu.Unlock()
+	}
+}
+
 // InjectPartialFrame writes the first fragment (FIN=0) of a text message towards the server and never completes it.
 func (p *Proxy) InjectPartialFrame() {
 	p.mu.Lock()
@@ -566,7 +600,22 @@ func (pc *pconn) pump(dir string, src, dst net.Conn) {
 			}
 			continue
 		}
-		if !pc.write(dst, frame) {
+		if dir == "c2s" && !control {
+			// forwarded under the lock that also guards injected frames, which go out at message boundaries only
+			pc.wmu.Lock()
+			_, werr := dst.Write(frame)
+			pc.c2sOpen = !fin
+			if fin {
+				for _, q := range pc.injectQ {
+					dst.Write(q)
+				}
+				pc.injectQ = nil
+			}
+			pc.wmu.Unlock()
+			if werr != nil {
+				return
+			}
+		} else if !pc.write(dst, frame) {
 			return
 		}
 
@@ -579,6 +628,11 @@ func (pc *pconn) pump(dir string, src, dst net.Conn) {
 			}
 		}
 		if control {
+			if op == 8 && msgOp != 0 {
+				// control frames may travel between the fragments of a message, but nothing follows a close frame:
+				// an endpoint that sends one while its own message is unfinished has torn that message
+				pc.violation("%s close frame sent in the middle of the sender's own unfinished message (%d fragments, %d bytes so far)", dir, msgFrames, len(msgBuf))
+			}
 			pc.logMsg(dir, op, plain, 1)
 			continue
 		}
